@@ -168,10 +168,138 @@ theorem unappliable_dropped_of_no_crash (d : Docs) (u : Nat) (changes : List Cha
   didChange_result d u changes t t' hnc h0 h1
 
 
+/-! ## the session layer: documents the editor holds open, files that change or vanish on disk -/
+
+/-- sizes for the session layer: as `Small`; a file the server re-reads from disk, or loads with its
+package, is below the `u32` limit (`set_vfs_file_content` does not check `MAX_FILE_LEN`) -/
+def SmallEv (s : Sess) : Ev → Prop
+  | .msg m => Small s.docs m
+  | _ => ∀ p ∈ s.docs, u8sum p.2 < U32
+
+theorem sstep_normal (s : Sess) (e : Ev) (h : Normal s.docs) : Normal (sstep s e).1.docs := by
+  cases e with
+  | msg m => exact step_normal s.docs m h
+  | watched uri deleted disk =>
+    cases uri with
+    | file u =>
+      simp only [sstep]
+      split
+      · exact h
+      · split
+        · intro p hp; exact h p (mem_remove _ u p hp)
+        · cases disk with
+          | absent => intro p hp; exact h p (mem_remove _ u p hp)
+          | regular text =>
+            intro p hp
+            rcases mem_set _ u _ p hp with hp | hp
+            · subst hp; exact stripCR_idem text
+            · exact h p hp
+          | unreadable => exact h
+    | other i => exact h
+  | loaded u text =>
+    intro p hp
+    rcases mem_set _ u _ p hp with hp | hp
+    · subst hp; exact stripCR_idem text
+    · exact h p hp
+
+/-- **no message and no file event crashes the server**: files that change, vanish or turn out to be
+unreadable included -/
+theorem sstep_total (s : Sess) (e : Ev) (hn : Normal s.docs) (hs : SmallEv s e) : (sstep s e).2 ≠ .crash := by
+  cases e with
+  | msg m => exact step_total s.docs m hn hs
+  | watched uri deleted disk =>
+    cases uri with
+    | file u =>
+      simp only [sstep]
+      split
+      · intro h; cases h
+      · split
+        · intro h; cases h
+        · cases disk <;> (intro h; cases h)
+    | other i => intro h; cases h
+  | loaded u text => intro h; cases h
+
+/-- a file event about a document the editor holds open changes nothing: the editor's text wins over
+whatever is on disk -/
+theorem watched_open_untouched (s : Sess) (u : Nat) (deleted : Bool) (disk : Disk) (h : u ∈ s.opened) :
+    sstep s (.watched (.file u) deleted disk) = (s, .none) := by
+  simp only [sstep]
+  rw [if_pos (by simpa using h)]
+
+/-- closing a document keeps its text (the editor ends its maintenance, it does not delete the file) -/
+theorem close_keeps_text (s : Sess) (uri : Uri) : (sstep s (.msg (.didClose uri))).1.docs = s.docs := by
+  cases uri <;> rfl
+
+/-- **a file that vanishes**: after a DELETED event — or a CREATED / CHANGED event whose file is gone by the
+time it is read — for a document the editor does not hold open, the server has forgotten the document … -/
+theorem vanished_forgotten (s : Sess) (u : Nat) (deleted : Bool) (disk : Disk) (hno : u ∉ s.opened)
+    (hgone : deleted = true ∨ disk = .absent) :
+    lookup (sstep s (.watched (.file u) deleted disk)).1.docs u = none := by
+  simp only [sstep]
+  rw [if_neg (by simpa using hno)]
+  rcases hgone with hd | hd
+  · rw [if_pos hd]; exact lookup_remove _ u
+  · subst hd
+    split
+    · exact lookup_remove _ u
+    · exact lookup_remove _ u
+
+/-- … and whatever arrives for it afterwards is harmless: a change is ignored (the store is untouched, nothing
+is applied to any other document), a request is answered with an error -/
+theorem forgotten_harmless (s : Sess) (u : Nat) (h : lookup s.docs u = none) (changes : List Change)
+    (id line col : Nat) :
+    (sstep s (.msg (.didChange (.file u) changes))).1.docs = s.docs ∧
+    (sstep s (.msg (.didChange (.file u) changes))).2 = .none ∧
+    (sstep s (.msg (.request id (.file u) line col))).2 = .response id false := by
+  simp [sstep, step, h]
+
+/-- a document that is open when an unappliable edit forgets it stays recorded as open: later file
+events about it are still the editor's business, not the server's -/
+theorem forgotten_stays_open (s : Sess) (u : Nat) (changes : List Change) :
+    (sstep s (.msg (.didChange (.file u) changes))).1.opened = s.opened := rfl
+
+/-- re-reading a changed file replaces the stored text by the (normalised) text on disk -/
+theorem changed_reread (s : Sess) (u : Nat) (text : List Char) (hno : u ∉ s.opened) :
+    lookup (sstep s (.watched (.file u) false (.regular text))).1.docs u = some (stripCR text) := by
+  simp only [sstep]
+  rw [if_neg (by simpa using hno)]
+  simp only [Bool.false_eq_true, if_false]
+  exact lookup_set _ u _
+
+/-- a whole session never crashes while the sizes stay below the limit -/
+theorem srun_total : ∀ (es : List Ev) (s : Sess), Normal s.docs →
+    (∀ (pre : List Ev) (e : Ev) (post : List Ev), es = pre ++ e :: post → SmallEv (srun s pre).1 e) →
+    Out.crash ∉ (srun s es).2
+  | [], s, _, _ => by simp [srun]
+  | e :: es, s, hn, hs => by
+    have h0 := hs [] e es rfl
+    simp only [srun] at h0
+    have hnc := sstep_total s e hn h0
+    have hn' := sstep_normal s e hn
+    have hrun : ∀ l, srun s (e :: l) = ((srun (sstep s e).1 l).1, (sstep s e).2 :: (srun (sstep s e).1 l).2) := by
+      intro l
+      simp only [srun]
+    rw [hrun]
+    simp only [List.mem_cons, not_or]
+    refine ⟨fun hc => hnc hc.symm, ?_⟩
+    refine srun_total es _ hn' ?_
+    intro pre e' post hsplit
+    have := hs (e :: pre) e' post (by rw [hsplit]; rfl)
+    rw [hrun] at this
+    exact this
+
 example : (run [] [.didOpen (.file 1) "ab\r\ncd".toList,
                    .didChange (.file 1) [⟨some (0, 1, 1, 1), "X".toList⟩],
                    .didChange (.file 1) [⟨some (1, 1, 0, 0), []⟩, ⟨none, "zz".toList⟩],
                    .request 7 (.file 1) 0 0, .didOpen (.other 3) [], .request 8 (.other 3) 0 0]).2
     = [.none, .none, .none, .response 7 false, .none, .response 8 false] := by decide
+
+/-- a document is edited, closed, and its file vanishes; the change that still arrives for it is ignored
+and a document opened afterwards holds exactly its own text -/
+example : let r := srun ⟨[], []⟩ [.msg (.didOpen (.file 1) "ab".toList), .msg (.didChange (.file 1) [⟨some (0, 0, 0, 0), "x".toList⟩]),
+                   .msg (.didClose (.file 1)), .watched (.file 1) true .absent,
+                   .msg (.didChange (.file 1) [⟨some (0, 0, 0, 1), []⟩]), .msg (.didOpen (.file 2) "new".toList),
+                   .msg (.request 9 (.file 1) 0 0), .watched (.file 2) true .absent]
+    r.2 = [.none, .none, .none, .none, .none, .none, .response 9 false, .none] ∧ r.1.docs = [(2, "new".toList)] := by decide
 
 end Glas.Props.C15
